@@ -21,4 +21,10 @@ def run(prog, tier):
     CR.header_writer_rule(prog, res, 'carry-through/header-write', int_scale_ok=True)
     CR.header_reader_rule(prog, res, 'carry-through/header-read', int_scale_ok=True)
     CR.copy_completeness_rule(prog, res)
+    # strings are stored trimmed: the trimmer must empty a cell made only of padding
+    import p_c11
+    p_c11.check_trimmer(prog, res, 'string-trim')
+    # a CHAR cell is dimension[0] bytes wide: the setter must declare the longest stored string
+    import p_c09
+    p_c09.longest_string_rule(prog, res, 'cell-width/declared')
     return res
